@@ -103,6 +103,10 @@ def classify(results, metas, wd, rep, dist, known_keys=()):
             ops = [l for l in li if l.startswith("op ")]
             # theorem C07_pcm_seek_checked: where its executable hypotheses hold (model-only `thm` lines, one per
             # sample seek in order) the implementation must report success and exactly the target
+            for l in mcases.get(k, []):
+                if l.startswith("tho "):
+                    dist["opens"] = dist.get("opens", 0) + 1
+                    dist["opens_start_theorem_applies"] = dist.get("opens_start_theorem_applies", 0) + (l.split()[1] == "1")
             thm = [l.split() for l in mcases.get(k, []) if l.startswith(("thm ", "thmh "))]
             pss = [l.split() for l in ops if l.split()[1].startswith(("ps:", "ts:"))]
             if len(thm) == len(pss):
